@@ -1,10 +1,230 @@
 (** C09 - settings switches are honoured and orthogonal (statements only). *)
 From Coq Require Import List NArith String Bool.
 From V Require Import Base.Strings Base.Result Model.Registry Model.Settings Model.Subst
-  Model.TypePath Model.Derives Model.Generate Model.Emit Model.Equal Proofs.GenProofs Proofs.SortDedup.
+  Model.TypePath Model.Derives Model.Generate Model.Emit Model.Equal Model.Switches Model.Inputs
+  Proofs.GenProofs Proofs.SortDedup Proofs.TpMap Proofs.SubstMap Proofs.EmitMap Proofs.FramesIR
+  Proofs.FramesGen Proofs.Frames.
 Import ListNotations.
+Open Scope string_scope. Open Scope list_scope.
 
 Theorem C09_docs_switch :
   forall s docs, docs_from_scale_info s docs = if s_docs s then docs else [].
 Proof. exact docs_switch. Qed.
 Print Assumptions C09_docs_switch.
+
+(** * 1. IR-level orthogonality of the two boolean switches (all outcomes, errors included) *)
+Theorem C09_docs_orthogonal_ir :
+  forall r s teq,
+    generate r (set_docs false s) teq = rmap (map_items strip_docs_ir) (generate r s teq).
+Proof. exact C09_docs_orthogonal_ir. Qed.
+Print Assumptions C09_docs_orthogonal_ir.
+
+Theorem C09_codec_orthogonal_ir :
+  forall r s b teq,
+    generate r (set_codec b s) teq = rmap (map_items (set_codec_ir b)) (generate r s teq).
+Proof. exact C09_codec_orthogonal_ir. Qed.
+Print Assumptions C09_codec_orthogonal_ir.
+
+(** docs on: an item and its variants carry exactly the registry's doc lines, in order
+    (and the variants their registry index and name) *)
+Theorem C09_docs_exact :
+  forall r s t flat ir,
+    s_docs s = true -> create_type_ir r s t flat = Ok (Some ir) ->
+    (forall fs, t_def t = TDComposite fs ->
+       exists c, ti_kind ir = KStruct c /\ ci_docs c = t_docs t) /\
+    (forall vs, t_def t = TDVariant vs ->
+       exists name cs, ti_kind ir = KEnum name (t_docs t) cs /\
+                       map (fun x => ci_docs (snd x)) cs = map v_docs vs /\
+                       map fst cs = map v_index vs /\
+                       map (fun x => ci_name (snd x)) cs = map v_name vs).
+Proof. exact create_type_ir_docs_exact. Qed.
+Print Assumptions C09_docs_exact.
+
+(** every generated item was produced under the settings' switches *)
+Theorem C09_generate_item_ok :
+  forall r s teq m, generate r s teq = Ok m ->
+    Forall (fun e => item_ok (s_docs s) (s_codec s) (snd (snd e))) m.
+Proof. exact generate_item_ok. Qed.
+Print Assumptions C09_generate_item_ok.
+
+(** * 2. The emitter treats tokens opaquely: it commutes with every token renaming [phi] that
+    fixes the generator's own literals ([phi_ok]); module names are path segments. *)
+Theorem C09_emit_module_map :
+  forall phi d c s1 s2 (m : items),
+    phi_ok phi d c ->
+    Forall (fun e => item_ok d c (snd (snd e))) m ->
+    (forall e seg, In e m -> In seg (fst e) -> phi seg = seg) ->
+    alloc_tokens (s_alloc s2) = map phi (alloc_tokens (s_alloc s1)) ->
+    s_root s2 = phi (s_root s1) ->
+    emit_module s2 (map_items (map_ir phi) m) = rmap (map phi) (emit_module s1 m).
+Proof. exact emit_module_map. Qed.
+Print Assumptions C09_emit_module_map.
+
+(** the ONE lemma at emitter level: every token of the module is a generator literal or one of
+    the inputs stored in the IR (names, path token lists, derive / attribute tokens), the root,
+    the alloc path *)
+Theorem C09_emit_tokens_from :
+  forall d c s (m : items) toks w,
+    emit_module s m = Ok toks ->
+    Forall (fun e => item_ok d c (snd (snd e))) m ->
+    ~ gen_lit d c w ->
+    ~ In w (s_root s :: alloc_tokens (s_alloc s) ++ items_inputs m) ->
+    ~ In w toks.
+Proof. exact emit_tokens_from. Qed.
+Print Assumptions C09_emit_tokens_from.
+
+Theorem C09_docs_off_no_doc_attr :
+  forall s ir toks,
+    type_ir_tokens s (strip_docs_ir ir) = Ok toks ->
+    ~ In "doc" (alloc_tokens (s_alloc s) ++ ir_inputs ir) -> ~ In "doc" toks.
+Proof. exact docs_off_no_doc_attr. Qed.
+Print Assumptions C09_docs_off_no_doc_attr.
+
+Theorem C09_codec_off_no_codec_attr :
+  forall s ir toks,
+    ti_codec ir = false -> type_ir_tokens s ir = Ok toks ->
+    ~ In "codec" (alloc_tokens (s_alloc s) ++ ir_inputs ir) -> ~ In "codec" toks.
+Proof. exact codec_off_no_codec_attr. Qed.
+Print Assumptions C09_codec_off_no_codec_attr.
+
+(** * 3. Path resolution and the whole generation commute with such a renaming as well *)
+Theorem C09_resolve_rec_map :
+  forall phi r s1 s2, resolve_frame phi r s1 s2 ->
+    forall fuel id is_field parents orig,
+      resolve_rec r s2 fuel id is_field parents orig =
+      rmap (map_tpath phi) (resolve_rec r s1 fuel id is_field parents orig).
+Proof. exact resolve_rec_map. Qed.
+Print Assumptions C09_resolve_rec_map.
+
+Theorem C09_generate_map :
+  forall phi r s1 s2 teq, gen_frame phi r s1 s2 ->
+    generate r s2 teq = rmap (map_items (map_ir phi)) (generate r s1 teq).
+Proof. exact generate_map. Qed.
+Print Assumptions C09_generate_map.
+
+(** the general frame theorem: generation followed by emission *)
+Theorem C09_gen_emit_map :
+  forall phi r s1 s2 teq,
+    gen_frame phi r s1 s2 -> phi_ok phi (s_docs s1) (s_codec s1) ->
+    gen_emit r s2 teq = rmap (map phi) (gen_emit r s1 teq).
+Proof. exact gen_emit_map. Qed.
+Print Assumptions C09_gen_emit_map.
+
+(** the ONE lemma, end to end: every token of the generated module is a generator literal
+    (for the settings' switches) or one of the caller's inputs
+    [gen_inputs r s = root :: alloc path ++ user tokens ++ registry identifiers] *)
+Theorem C09_tokens_from :
+  forall r s teq toks w,
+    gen_emit r s teq = Ok toks ->
+    ~ gen_lit (s_docs s) (s_codec s) w -> ~ In w (gen_inputs r s) -> ~ In w toks.
+Proof. exact gen_tokens_from. Qed.
+Print Assumptions C09_tokens_from.
+
+(** its three corollaries: custom alloc path => no [std]; docs off => no [doc]; codec off => no
+    [codec] (unless the caller's own tokens / identifiers contain the word) *)
+Theorem C09_no_std :
+  forall r s a teq toks,
+    s_alloc s = ACustom a -> gen_emit r s teq = Ok toks ->
+    ~ In "std" (s_root s :: a ++ user_tokens s ++ registry_idents r) -> ~ In "std" toks.
+Proof. exact no_std. Qed.
+Print Assumptions C09_no_std.
+
+(** ... and in the tokens of every resolved path *)
+Theorem C09_no_std_resolved_path :
+  forall r s id toks t w,
+    resolve_type_path r s id = Ok t ->
+    tp_tokens (alloc_tokens (s_alloc s)) t = Ok toks ->
+    ~ gen_lit false false w ->
+    ~ In w (alloc_tokens (s_alloc s)) ->
+    w <> s_root s ->
+    (forall e, In e r -> ~ In w (t_path (snd e))) ->
+    (forall k v, In (k, v) (s_subs s) -> ~ In w (print_spath (su_path v))) ->
+    ~ In w (match s_compact s with Some c => c | None => [] end) ->
+    ~ In w (match s_bits s with Some c => c | None => [] end) ->
+    ~ In w toks.
+Proof. exact resolve_tokens_from. Qed.
+Print Assumptions C09_no_std_resolved_path.
+
+Theorem C09_std_not_literal : forall d c, ~ gen_lit d c "std".
+Proof. exact std_not_gen_lit. Qed.
+Print Assumptions C09_std_not_literal.
+
+Theorem C09_docs_off_no_doc :
+  forall r s teq toks,
+    s_docs s = false -> gen_emit r s teq = Ok toks ->
+    ~ In "doc" (gen_inputs r s) -> ~ In "doc" toks.
+Proof. exact docs_off_no_doc. Qed.
+Print Assumptions C09_docs_off_no_doc.
+
+Theorem C09_codec_off_no_codec :
+  forall r s teq toks,
+    s_codec s = false -> gen_emit r s teq = Ok toks ->
+    ~ In "codec" (gen_inputs r s) -> ~ In "codec" toks.
+Proof. exact codec_off_no_codec. Qed.
+Print Assumptions C09_codec_off_no_codec.
+
+(** * 4. Codec on: every variant starts with its index attribute; every compact field of a
+    variant is preceded by the compact marker *)
+Theorem C09_codec_on_variants :
+  forall s ir name docs vs toks,
+    ti_codec ir = true -> ti_kind ir = KEnum name docs vs -> type_ir_tokens s ir = Ok toks ->
+    exists (bodies : list tokens) ignore,
+      Forall2 (fun (v : N * composite_ir) body =>
+                 exists fields,
+                   enum_field_tokens s (ci_kind (snd v)) true = Ok fields /\
+                   body = codec_index (fst v) ++ doc_tokens (ci_docs (snd v)) ++
+                          [ci_name (snd v)] ++ fields ++ [","]) vs bodies /\
+      toks = derives_tokens (ti_derives ir) ++ doc_tokens docs ++ ["pub"; "enum"; name] ++
+             type_params_tokens (ti_params ir) ++ ["{"] ++ List.concat bodies ++ ignore ++ ["}"].
+Proof. exact codec_on_variants. Qed.
+Print Assumptions C09_codec_on_variants.
+
+Theorem C09_codec_on_named_fields :
+  forall s fs codec fields,
+    enum_field_tokens s (CNamed fs) codec = Ok fields ->
+    exists parts,
+      Forall2 (fun (x : string * field_ir) part =>
+                 exists t, field_tokens s (snd x) = Ok t /\
+                           part = compact_attr_of codec (snd x) ++ [fst x; ":"] ++ t ++ [","])
+              fs parts /\
+      fields = ["{"] ++ List.concat parts ++ ["}"].
+Proof. exact enum_field_tokens_named_decomp. Qed.
+Print Assumptions C09_codec_on_named_fields.
+
+Theorem C09_codec_on_struct_named_fields :
+  forall s fs phantom codec fields,
+    struct_field_tokens s (CNamed fs) phantom codec = Ok fields ->
+    exists parts marker,
+      Forall2 (fun (x : string * field_ir) part =>
+                 exists t, field_tokens s (snd x) = Ok t /\
+                           part = compact_attr_of codec (snd x) ++ ["pub"; fst x; ":"] ++ t ++ [","])
+              fs parts /\
+      fields = ["{"] ++ List.concat parts ++ marker ++ ["}"].
+Proof. exact struct_field_tokens_named_decomp. Qed.
+Print Assumptions C09_codec_on_struct_named_fields.
+
+Theorem C09_compact_marker :
+  forall f, fi_compact f = true -> compact_attr_of true f = compact_attr.
+Proof. exact compact_attr_of_true. Qed.
+Print Assumptions C09_compact_marker.
+
+(** * 5. Renaming the root module changes nothing except the root token: the two outputs
+    (any outcome) are related by the one-token renaming.  [root2] is arbitrary; the old root
+    must not be a generator literal nor occur among the caller's other inputs.
+
+    NOT proved here (the remaining frames of DESIGN.md C09_orthogonal_.. ): the alloc-prefix,
+    compact-path and bits-path frames.  They replace a token LIST by another list, so they are
+    not instances of the token-renaming lemma [C09_gen_emit_map]; they need an inductively
+    defined alignment relation (as the run-time checker [frame_tokens] uses) and a second
+    simultaneous induction over resolver and emitter.  The docs / codec frames are proved at IR
+    level (section 1) together with [C09_emit_module_map]; their token-level form "erasing the
+    [#[doc = ..]] / [#[codec(..)]] groups of both outputs gives equal lists" is likewise not
+    derived here. *)
+Theorem C09_root_rename :
+  forall r s root2 teq,
+    ~ gen_lit (s_docs s) (s_codec s) (s_root s) ->
+    ~ In (s_root s) (alloc_tokens (s_alloc s) ++ user_tokens s ++ registry_idents r) ->
+    gen_emit r (set_root root2 s) teq =
+    rmap (map (rename_tok (s_root s) root2)) (gen_emit r s teq).
+Proof. exact root_rename. Qed.
+Print Assumptions C09_root_rename.
